@@ -20,4 +20,10 @@ TEXTS = {
         "note": "Panics are observed through catch_unwind and a panic hook; process abort is observed as the child's exit status.",
         "technique": "stateful property-based testing (proptest op sequences + interpreter)",
     },
+    "C06": {
+        "level": "Grammar-based generated-input search: DeriveInput source text (every data shape, generics, #[darling] bodies from option lists with valid and invalid values to arbitrary token trees) fed to all six derive functions under catch_unwind; oracle: the output is items, exactly one impl of the requested trait XOR >=1 compile_error!. Quick 6*10^4 items (3.6*10^5 derive calls); thorough 3.2*10^6 items.",
+        "ref": "DESIGN.md section 3 C06",
+        "note": "Drives darling_core::derive::* in-process (what macro/src/lib.rs calls after parse_macro_input!); a panic is observed through a panic hook.",
+        "technique": "grammar-based property testing (proptest bytes -> structured decoder), totality oracle",
+    },
 }
